@@ -5,9 +5,10 @@ import Driver.Exact
 import Driver.Literal
 import Driver.Enc
 import Driver.AbsFmt
+import Driver.Cursor
 open Fpy Fpy.Drv
 
-def handlers : List (String → Option (P String)) := [handleNum, handleCheck, handleExact, handleLiteral, handleEnc, handleAbsFmt]
+def handlers : List (String → Option (P String)) := [handleNum, handleCheck, handleExact, handleLiteral, handleEnc, handleAbsFmt, handleCursor]
 
 def handleLine (line : String) : String :=
   match handleLangLine line with
